@@ -358,3 +358,87 @@ func vendorRefusalCase(c *core.Ctx, r *core.Rand, i int) {
 		c.Violation("C08:handler-error:vendor-operation:connection-not-served", fmt.Sprintf("after the refused vendor operation the connection is not served: %v", err), nil)
 	}
 }
+
+// directedRequestsCase: well-formed requests that ordinary clients never send in this shape. 0-6: the 8-byte header of
+// the request arrives in two pieces (k+1 bytes first); 7: a well-formed Response Message comes first (ignored by the
+// server) and a request behind it; 8-11: a batch under the Stop option whose first or middle item fails.
+// Each request is answered, correctly, and the connection goes on being served.
+func directedRequestsCase(c *core.Ctx, r *core.Rand, i int) {
+	w := newWorld()
+	defer func() { w.srv.Shutdown(); <-w.done }()
+	conn, _ := w.l.Dial()
+	defer conn.Close()
+	kind := i % 12
+	label := ""
+	switch {
+	case kind < 7:
+		split := kind + 1
+		label = fmt.Sprintf("request whose header arrives in two pieces (%d bytes first)", split)
+		id := fmt.Sprintf("dr%d-ok", i)
+		req := request(id)
+		done := make(chan *kmip.ResponseMessage, 1)
+		go func() {
+			conn.Write(req[:split])
+			for t := 0; t < 200 && conn.Peer().BytesRead.Load() < int64(split); t++ {
+				time.Sleep(50 * time.Microsecond) // until the server has taken the first piece
+			}
+			time.Sleep(200 * time.Microsecond)
+			conn.Write(req[split:])
+			frame, err := script.ReadFrame(conn)
+			if err != nil {
+				done <- nil
+				return
+			}
+			var resp kmip.ResponseMessage
+			if ttlv.UnmarshalTTLV(frame, &resp) != nil {
+				done <- nil
+				return
+			}
+			done <- &resp
+		}()
+		select {
+		case resp := <-done:
+			if resp == nil || classify(resp) != id || resp.BatchItem[0].ResultStatus != kmip.ResultStatusSuccess {
+				c.Violation("C08:directed:split-header", fmt.Sprintf("a well-formed %s is not answered with its response", label), nil)
+				return
+			}
+		case <-time.After(15 * time.Second):
+			c.Violation("C08:directed:split-header", fmt.Sprintf("a well-formed %s is not answered within 15 s", label), nil)
+			return
+		}
+	case kind == 7:
+		label = "a Response Message sent by the client, then a request"
+		stray := ttlv.MarshalTTLV(&kmip.ResponseMessage{Header: kmip.ResponseHeader{ProtocolVersion: kmip.V1_4, TimeStamp: time.Unix(1700000000, 0), BatchCount: 1},
+			BatchItem: []kmip.ResponseBatchItem{{Operation: kmip.OperationActivate, ResultStatus: kmip.ResultStatusSuccess, ResponsePayload: &payloads.ActivateResponsePayload{UniqueIdentifier: "stray"}}}})
+		id := fmt.Sprintf("dr%d-ok", i)
+		conn.Write(stray)
+		if resp, err := rawRoundtrip(conn, request(id)); err != nil || classify(resp) != id {
+			c.Violation("C08:directed:client-response-message", fmt.Sprintf("after %s the request is not answered: %v", label, err), nil)
+			return
+		}
+	default:
+		n := 3 + kind%2
+		failAt := (kind - 8) / 2 // first or second item
+		label = fmt.Sprintf("Stop batch of %d items, item %d fails", n, failAt+1)
+		m := kmip.RequestMessage{Header: kmip.RequestHeader{ProtocolVersion: kmip.V1_4, BatchErrorContinuationOption: kmip.BatchErrorContinuationOptionStop, BatchCount: int32(n)}}
+		for k := 0; k < n; k++ {
+			id := fmt.Sprintf("dr%d-%d-ok", i, k)
+			if k == failAt {
+				id = fmt.Sprintf("dr%d-%d-typed", i, k)
+			}
+			m.BatchItem = append(m.BatchItem, kmip.RequestBatchItem{Operation: kmip.OperationActivate, UniqueBatchItemID: []byte{byte(k + 1)}, RequestPayload: &payloads.ActivateRequestPayload{UniqueIdentifier: id}})
+		}
+		resp, err := rawRoundtrip(conn, ttlv.MarshalTTLV(&m))
+		if err != nil || len(resp.BatchItem) != n {
+			c.Violation("C08:directed:stop-batch", fmt.Sprintf("a %s is not answered item by item: %v", label, err), nil)
+			return
+		}
+	}
+	c.Count("directed_requests", 1)
+	c.Count(fmt.Sprintf("directed_requests.kind%d", kind), 1)
+	c.Distinct(core.Hash64("directed-requests", fmt.Sprint(kind)))
+	id := fmt.Sprintf("dr%d-after-ok", i)
+	if resp, err := rawRoundtrip(conn, request(id)); err != nil || classify(resp) != id {
+		c.Violation("C08:directed:connection-not-served", fmt.Sprintf("after %s the connection is not served: %v", label, err), nil)
+	}
+}
